@@ -39,6 +39,8 @@ def parseOp (nk : Nat) (s : String) : Option Op :=
   | ['P', k] => (digit? k).bind fun k => if k < nk then some (.lsp k) else none
   | ['G'] => some .range
   | ['c'] => some .closeAll
+  | ['A', k] => (digit? k).bind fun k => if k < nk then some (listenerOp (.listen k)) else none
+  | ['F', k] => (digit? k).bind fun k => if k < nk then some (listenerOp (.listenFails k)) else none
   | ['L', k, 'g'] => (digit? k).bind fun k => if k < nk then some (logSetupOp k .good) else none
   | ['L', k, 'b'] => (digit? k).bind fun k => if k < nk then some (logSetupOp k .badLevel) else none
   | ['L', k, 'e'] => (digit? k).bind fun k => if k < nk then some (logSetupOp k .encoderFails) else none
@@ -77,7 +79,8 @@ def clientProg (s : String) : Bool :=
   s.toList.all fun c => c == 'O' || c == 'o' || c == 'f' || c == 'c' || c == 'L' || c == 'g' || c == 'b' || c == 'e' ||
     c == ',' || c == ';' || c == '-' || (digit? c).isSome
 
-def plainProg (s : String) : Bool := s.toList.all fun c => c != 'O' && c != 'c' && c != 'P' && c != 'L'
+def plainProg (s : String) : Bool :=
+  s.toList.all fun c => c != 'O' && c != 'c' && c != 'P' && c != 'L' && c != 'A' && c != 'F'
 
 /-- `hosts` lines: only `P<k>` and `c` -/
 def hostsProg (s : String) : Bool :=
@@ -88,6 +91,21 @@ def handle : List String → String
     -- un-forced run: nothing to compare but the well-formedness of the line
     if numIn seed 0 999999999 && numIn nt 2 8 && numIn iters 1 5000 && numIn nk 1 4 && (mode == "a" || mode == "b")
     then "stress-ok" else "bad-op"
+  | ["listeners", nk, progs, sched] =>
+    -- the unix listener glue (listen_unix.go) through the public API, whole calls: `A<k>` NetworkAddress.Listen on
+    -- address k succeeds, `F<k>` the bind is refused, `c` the config closes all its listeners (last operation)
+    if !(progs.toList.all fun c => c == 'A' || c == 'F' || c == 'c' || c == ',' || c == ';' || c == '-' || (digit? c).isSome)
+    then "bad-op" else
+    match parseNk nk with
+    | none => "bad-op"
+    | some nk =>
+      match parseProgs nk progs with
+      | none => "bad-op"
+      | some ps =>
+        if ps.any (fun p => p.dropLast.contains .closeAll) || nk > 2 then "bad-op" else
+        match parseSched ps.length sched with
+        | none => "bad-op"
+        | some sc => runCaseAtomic nk ps sc
   | ["hosts", nk, progs, sched] =>
     -- the same model, driven through the real reverse-proxy client of the hosts pool:
     -- `P<k>` Handler.provisionUpstream of an upstream with dial address k (fillHost → LoadOrStore of a
